@@ -7,7 +7,7 @@
    comb / fuel / the script [evs] quantify over every reader behaviour (arbitrary
    chunking, 0-byte reads, an error at any offset, data together with EOF/error).
    [matches_desc H dg sz bs] = length bs = sz /\ dg = alg:H alg bs /\ dg is a valid digest. *)
-From Oras Require Import Base.Prelude Generated.GC05 Model.Verify Proofs.Verify Proofs.VerifyComplete Proofs.VerifyProxy Proofs.VerifyFuel Proofs.VerifyConc Proofs.VerifyTop Proofs.VerifyWriter Proofs.VerifyNames Proofs.VerifyFileConc Proofs.VerifyOpts.
+From Oras Require Import Base.Prelude Generated.GC05 Model.Verify Proofs.Verify Proofs.VerifyComplete Proofs.VerifyProxy Proofs.VerifyFuel Proofs.VerifyConc Proofs.VerifyTop Proofs.VerifyWriter Proofs.VerifyNames Proofs.VerifyFileConc Proofs.VerifyOpts Proofs.VerifyChunk.
 
 (* ReadAll hands back data only when length and digest match and the reader held
    nothing else *)
@@ -153,6 +153,16 @@ Theorem C05_copybuffer_faulty_destination :
     (b_lim src = None -> stream (b_evs src) = out).
 Proof. exact copy_buffer_w_sound. Qed.
 Print Assumptions C05_copybuffer_faulty_destination.
+
+(* the size of the copy buffer is irrelevant: for every two buffer sizes >= 1 CopyBuffer
+   returns the same error, has written the same bytes and leaves the reader in the same
+   state (so os.File.ReadFrom's 32 KiB and the stores' 1 MiB pool buffer cannot matter) *)
+Theorem C05_copybuffer_bufsz_independent :
+  forall (H : str -> str -> str) comb fixed fuel evs b1 b2 dg sz,
+    (1 <= b1)%nat -> (1 <= b2)%nat -> (ev_weight evs < fuel)%nat ->
+    copy_buffer H comb fixed fuel (mkBase evs None) b1 dg sz = copy_buffer H comb fixed fuel (mkBase evs None) b2 dg sz.
+Proof. exact copy_buffer_bufsz_indep. Qed.
+Print Assumptions C05_copybuffer_bufsz_independent.
 
 (* malformed or unsupported digest, negative size, reader shorter than Size, first
    Size bytes hashing to something else, bytes beyond Size: always an error *)
